@@ -10,6 +10,7 @@ package ctlog_test
 // generated case always yields the same bytes.
 
 import (
+	"strings"
 	"crypto"
 	"crypto/ecdsa"
 	"crypto/elliptic"
@@ -105,6 +106,9 @@ func c09MakeCA(path string, parent *c09CA, root int, ctEKU bool, wrongSigner boo
 	}
 	c09Mu.Unlock()
 	keyLabel := path
+	if i := strings.Index(path, "~"); i >= 0 {
+		keyLabel = path[:i] // cross-certificate: the key and name of the CA before "~", issued by the CA after it
+	}
 	if wrongSigner {
 		keyLabel = path[:len(path)-1] // the twin has the same key and name as the genuine CA
 	}
@@ -177,6 +181,11 @@ func c09Inter(id, n int) *c09CA {
 // c09PreIssuer returns the precertificate signing certificate below ca.
 func c09PreIssuer(ca *c09CA) *c09CA {
 	return c09MakeCA(ca.path+"/P", ca, ca.root, true, false)
+}
+
+// c09Cross returns a cross-certificate: the subject name and key of ca, issued by other (a second valid path to another root).
+func c09Cross(ca, other *c09CA) *c09CA {
+	return c09MakeCA(ca.path+"~"+other.path, other, other.root, ca.ctEKU, false)
 }
 
 // c09BadTwin returns a certificate with the name, key and extensions of ca
